@@ -278,6 +278,7 @@ package gonum
 //@ valid n >= 0 && incx > 0 && (n == 0 || len(x) >= 1+(n-1)*incx)
 //@ panics iff !valid, before-writes
 //@ writes nothing
+//@ reads x[k*incx] for k in 0..n
 
 // Any uplo other than Upper and Lower selects the whole matrix.
 
@@ -285,24 +286,28 @@ package gonum
 //@ valid m >= 0 && n >= 0 && lda >= max(1, n) && (min(m, n) == 0 || ge(a, m, n, lda))
 //@ panics iff !valid, before-writes
 //@ writes a[i*lda+j] for i in 0..m, j in 0..n if (uplo != blas.Upper || j >= i) && (uplo != blas.Lower || j <= i)
+//@ reads nothing
 
 //@ func Implementation.Dlacpy props: C02 C07(safety)
 //@ valid (uplo == blas.Upper || uplo == blas.Lower || uplo == blas.All) && m >= 0 && n >= 0 &&
 //@       lda >= max(1, n) && ldb >= max(1, n) && (m == 0 || n == 0 || (ge(a, m, n, lda) && ge(b, m, n, ldb)))
 //@ panics iff !valid, before-writes
 //@ writes b[i*ldb+j] for i in 0..m, j in 0..n if (uplo != blas.Upper || j >= i) && (uplo != blas.Lower || j <= i)
+//@ reads a[i*lda+j] for i in 0..m, j in 0..n if (uplo != blas.Upper || j >= i) && (uplo != blas.Lower || j <= i)
 
 //@ func Implementation.Dlascl props: C02 C07(safety)
 //@ valid (kind == lapack.General || kind == lapack.UpperTri || kind == lapack.LowerTri) && lda >= max(1, n) &&
 //@       cfrom != 0 && !isNaN(cfrom) && !isNaN(cto) && m >= 0 && n >= 0 && (m == 0 || n == 0 || ge(a, m, n, lda))
 //@ panics iff !valid, before-writes
 //@ writes a[i*lda+j] for i in 0..m, j in 0..n if (kind != lapack.UpperTri || j >= i) && (kind != lapack.LowerTri || j <= i)
+//@ reads nothing
 
 //@ func Implementation.Dlange props: C02 C07(safety)
 //@ valid flagNorm(norm) && m >= 0 && n >= 0 && lda >= max(1, n) &&
 //@       (m == 0 || n == 0 || (ge(a, m, n, lda) && (norm != lapack.MaxColumnSum || len(work) >= n)))
 //@ panics iff !valid, before-writes
 //@ writes work[j] for j in 0..n if norm == lapack.MaxColumnSum
+//@ reads a[i*lda+j] for i in 0..m, j in 0..n
 
 //@ func Implementation.Dlansy props: C02 C07(safety)
 //@ let useWork = norm == lapack.MaxColumnSum || norm == lapack.MaxRowSum
@@ -310,12 +315,14 @@ package gonum
 //@       (n == 0 || (ge(a, n, n, lda) && (!useWork || len(work) >= n)))
 //@ panics iff !valid, before-writes
 //@ writes work[j] for j in 0..n if useWork
+//@ reads a[i*lda+j] for i in 0..n, j in 0..n if (uplo == blas.Upper && j >= i) || (uplo == blas.Lower && j <= i)
 
 //@ func Implementation.Dlantr props: C02 C07(safety)
 //@ valid flagNorm(norm) && flagUL(uplo) && flagD(diag) && m >= 0 && n >= 0 && lda >= max(1, n) &&
 //@       (min(m, n) == 0 || (ge(a, m, n, lda) && (norm != lapack.MaxColumnSum || len(work) >= n)))
 //@ panics iff !valid, before-writes
 //@ writes work[j] for j in 0..n if norm == lapack.MaxColumnSum
+//@ reads a[i*lda+j] for i in 0..m, j in 0..n if (uplo == blas.Upper && j >= i) || (uplo == blas.Lower && j <= i)
 
 // ---- eigenvalue / SVD family (C03) ----
 
@@ -619,12 +626,14 @@ package gonum
 //@ valid n >= 0 && (n == 0 || (len(d) >= n && len(e) >= n-1))
 //@ panics iff !valid, before-writes
 //@ writes d[t] for t in 0..n ; e[t] for t in 0..n-1
+//@ reads nothing
 
 //@ func Implementation.Dpttrs props: C02 C07(safety)
 //@ valid n >= 0 && nrhs >= 0 && ldb >= max(1, nrhs) &&
 //@       (n == 0 || nrhs == 0 || (len(d) >= n && len(e) >= n-1 && ge(b, n, nrhs, ldb)))
 //@ panics iff !valid, before-writes
 //@ writes b[r*ldb+c] for r in 0..n, c in 0..nrhs
+//@ reads d[k] for k in 0..n ; e[k] for k in 0..n-1
 
 //@ func Implementation.Dptsv props: C02 C07(safety)
 //@ valid n >= 0 && nrhs >= 0 && ldb >= max(1, nrhs) &&
@@ -660,6 +669,7 @@ package gonum
 //@ valid flagNorm(norm) && n >= 0 && (n == 0 || (len(d) >= n && len(e) >= n-1))
 //@ panics iff !valid, before-writes
 //@ writes nothing
+//@ reads d[k] for k in 0..n ; e[k] for k in 0..n-1
 
 //@ func Implementation.Dlansb props: C02 C07(safety)
 //@ let useWork = norm == lapack.MaxColumnSum || norm == lapack.MaxRowSum
